@@ -157,7 +157,7 @@ pub fn meta(prop: &str) -> Meta {
     const SEQ: &str = "cases = seeded sequential symbolic histories (3-60 ops, 1-4 clients, adversarial id classes incl. other clients' ids, clock jumps, chunked uploads, clean restarts, page-size knob) executed against the real server and compared step by step with the reference model; a case is distinct by the hash of its (operation kind, argument class, outcome class) sequence and non-trivial when at least one AddVersion was accepted";
     const CONC: &str = "cases = (prefix state, batch of 2-4 overlapping requests on 2-3 simulated threads and 1-3 server instances, seeded schedule); distinct by the hash of the full (thread, scheduling-site) interleaving trace; every one is non-trivial (at least two requests); each batch is decided by a brute-force linearizability search over real-time-respecting orders against the reference model";
     const CRASH: &str = "evaluations = recovered crash images: for every mutating VFS call (write/truncate/sync/delete) of every request of each generated history, 1 process-crash image + m power-loss images (quick m=2, thorough m=6; plus nested crash-during-recovery images in thorough); each image is recovered via SqliteStorage::new, integrity-checked, compared with the model state before/after the in-flight request, then served and extended. distinct = distinct (image kind, VFS call kind+file, request kind, in-flight/acked, first surviving-write pattern) cells; non-trivial = all (every image is a real crash point)";
-    const FAULT: &str = "evaluations = injected faults that actually fired: for every request of each generated history, every storage-trait call x {fail before effect, fail after effect} plus sampled pairs, and VFS calls x 14 error kinds (single and sticky windows; sampled to 60 per request); each on a copy of the data directory as of just before the request. distinct = distinct (injection, request kind, chain-length class) cells; non-trivial = the fault fired inside a request";
+    const FAULT: &str = "evaluations = injected faults that actually fired: for every request of each generated history, every storage-trait call x {fail before effect, fail after effect} plus sampled pairs, and VFS calls x 13 error kinds (single and sticky windows; sampled to 60 per request); each on a copy of the data directory as of just before the request. distinct = distinct (injection, request kind, chain-length class) cells; non-trivial = the fault fired inside a request";
     const WIRE: &str = "cases = seeded servers holding a generated history, optionally restarted with an allow-list (absent/empty/one/many), then 4-40 grammar-generated requests (route x method x client-id form x path-id form x content-type form x body class incl. exactly 100 MiB / 100 MiB+1, dropped connections, empty chunks); distinct by the hash of the (route, class, forms, status) sequence";
     const TWIN: &str = "cases = one symbolic history executed in lock step on several worlds (memory / SQLite / SQLite restarted at random points, or HTTP / library entry), responses compared modulo the bijection of issued ids; distinct by outcome-class sequence, non-trivial when at least one version was accepted";
     const ISO: &str = "cases = multi-client histories that quote other clients' ids, each followed by one solo re-run per client on a fresh world with the same clock timeline; distinct by outcome-class sequence, non-trivial when at least one version was accepted";
